@@ -16,7 +16,7 @@ subprocess.run(['/venv/bin/python', '-m', 'pytest', '-q', '-p', 'no:cacheprovide
 passed = set()
 for tc in ET.parse(out).getroot().iter('testcase'):
     if not any(c.tag in ('failure', 'error', 'skipped') for c in tc):
-        passed.add(f"{tc.get('classname')}::{tc.get('name')}")
+        passed.add(f"{tc.get('classname')}::{tc.get('name')}".replace(os.path.abspath(repo), '/repo'))
 os.unlink(out)
 missing = sorted(want - passed)
 print(f'baseline stable-pass {len(want)}; passing now {len(passed)}; baseline tests no longer passing: {len(missing)}')
